@@ -526,6 +526,24 @@ def gen_c13_batch(seed, index, tier):
                 if opt == '--preserve-globals' and '--rename-globals' not in extra['flags'] and r.random() < 0.7:
                     extra['flags'].append('--rename-globals')      # otherwise the list cannot matter
         tree, cmd = single_input_world(content, io, extra, name=r.choice(['m.py', 'm.pyw', 'module.txt', 'm']))
+        if io == 'in-place' and r.random() < 0.5:
+            # several modules in one run: every one of them gets the same option values, whatever was processed before it
+            # (flag and preserve-list state may not be used up by, or leak from, the first module).  The probe module reacts
+            # to every flag and to the preserved names; near-copies of it land at seeded positions of the visiting order.
+            extra_paths = []
+            for k in range(r.randrange(1, 4)):
+                y = r.random()
+                body = probe if y < 0.6 else (r.choice(p['shrink'])[1] if y < 0.9 else r.choice(p['grow'] + p['equal'])[1])
+                if body is probe and r.random() < 0.5:
+                    body = probe + b'\nextra_%d = local_total_%d = %d\n' % (k, k, k)
+                nm = 'w/%s%d.py' % (r.choice(['a', 'n', 'z']), k)
+                tree.append(['f', nm, E(body), None])
+                extra_paths.append(nm)
+            if r.random() < 0.5:
+                cmd['paths'] = ['w']
+            else:
+                cmd['paths'] = cmd['paths'] + extra_paths
+                r.shuffle(cmd['paths'])
         if fl and r.random() < 0.1:
             cmd['repeat_flags'] = [r.choice(fl)]
         if cmd.get('in_place') and r.random() < 0.3:
